@@ -15,7 +15,11 @@ FUNCTIONS = {
 FUNCTIONS['kripke'] = ['Kripke.__init__', 'Kripke.labels', 'Kripke.states', 'Kripke.next', 'Kripke.transitions_iter',
                        'Kripke.transitions', 'Kripke.clone', 'Kripke.get_substructure']
 FUNCTIONS['ctl'] = ['_checkAtomicProposition', '_checkNot', '_checkEX', '_checkOr', '_checkStateFormula']
+FUNCTIONS['ctl_thorough'] = ['_checkEU']
+FUNCTIONS['rewrite'] = ['LNot'] + ['%s.get_equivalent_restricted_formula' % c for c in
+                                   ('AtomicProposition', 'Not', 'A', 'E', 'X', 'F', 'G', 'Or', 'And', 'Imply', 'U', 'R')]
 PROPERTY_FUNCTIONS = {
+    'C05': FUNCTIONS['rewrite'],
     # own functions + the callee contracts the labelling relies on directly (their owners C13/C14 verify the rest)
     'C01': FUNCTIONS['ctl'] + ['Kripke.labels', 'Kripke.states', 'Kripke.next', 'Kripke.transitions_iter',
                                'DiGraph.get_subgraph', 'DiGraph.get_reversed_graph', 'DiGraph.add_edge', 'DiGraph.add_node',
@@ -36,6 +40,12 @@ TRUSTED = {
             'contract of get_equivalent_restricted_formula (C05, bounded) and injectivity of printing (C09, bounded): memo keys are formula trees',
             '_checkEU, _checkEG and modelcheck bodies are NOT under proof (contracts stated and used modularly; bounded only); compute_SCCs contract bounded (C12)',
             'precondition: Python None is not a state (KF-C19-1)'],
+    'C05': ['documented path semantics as axioms over abstract evaluation points (vf/pyvc/formula_sem.py axioms(); logics.rst) incl. skolemised quantifiers',
+            'induction hypothesis = the contract itself for recursive calls on subformulas (partial correctness)',
+            'constructors called by the rewriting bodies do not raise (typing of the rebuilt formula: C08, bounded) and wrap Python booleans as Bool',
+            'clone() returns an equal tree (C11, bounded); formulas are identified with their trees',
+            'CTL.A/CTL.E rewriting bodies (AU, ER need least-witness reasoning) and receiver-class differences (Lang) are NOT under proof: bounded only',
+            'one verification per body: the receiver is any formula with the class tag and arity of the defining class'],
     'C07': ['frame obligations cover the CTL labelling functions proved so far; LTL/CTL* call graphs bounded only'],
     'C19': ['safety obligations cover the CTL labelling functions proved so far; LTL/CTL* call graphs bounded only'],
 }
@@ -53,17 +63,14 @@ def build_engine(repo=None, timeout_ms=20000, seed=0):
         E.baseline_names = set()
     for k in contracts_graph.make():
         E.register(k, contracts_graph.FILE)
-    for modname in ('contracts_kripke', 'contracts_ctl'):
-        try:
-            mod = __import__('vf.pyvc.' + modname, fromlist=['make'])
-        except ImportError:
-            continue
+    for modname in ('contracts_kripke', 'contracts_ctl', 'formula_sem'):
+        mod = __import__('vf.pyvc.' + modname, fromlist=['install'])
         mod.install(E)
     return E
 
 
 SLICES = {'Kripke.__init__': 10, 'DiGraph.__init__': 3, 'Kripke.clone': 2, 'DiGraph.add_edge': 2, '_checkOr': 3,
-          '_checkStateFormula': 3, '_checkEX': 2}
+          '_checkStateFormula': 3, '_checkEX': 2, '_checkEU': 14, 'And.get_equivalent_restricted_formula': 2}
 
 
 def verify_function(arg):
